@@ -507,3 +507,4 @@ def run(ctx):
     conv.check_find_bin_nd(ctx, "C15.e", m.cls("HistogramND").methods["find_bin"])
     # transformed histograms are filled through the base classes' fill: every (lookup result, keep_missed) case (shared with C03.a)
     ctx.borrow("C03", ("HistogramND.fill:case(", "Histogram1D.fill:case(", "Histogram1D.fill:missed-writes-guarded"), "C15.e", floor=8)
+    ctx.borrow("C16", ("PolarHistogram.bin_sizes", "CylindricalHistogram.bin_sizes", "RadialHistogram.bin_sizes"), "C15.b", floor=2)
